@@ -62,6 +62,8 @@ def case(prop, family, text, cfg=None, x=None, **kw):
 
 
 F = []
+# every check decided by the R-SC reference can run into the scheduling-point findings
+SCP = ["C01", "C04", "C05", "C07", "C08", "C09", "C10", "C11", "C17"]
 
 
 def known(id, properties, what, kinds, klass, reproducer):
@@ -104,53 +106,61 @@ known("F7b-missing", ["C02"],
       ["missing_outcome"], "k7b",
       case("C02", "known", JOIN2 + "ld(x0,rlx); ld(x1,rlx) || t1: st(x0,1,sc); st(x1,1,rel) || t2: ld(x1,rlx); swap(x0,2,rlx)"))
 
-known("F9", ["C01", "C05", "C07"],
+known("F9", SCP,
       "try_lock/try_read/try_write never observe another thread's critical section: a thread whose pending operation is a try_* is "
       "blocked like a blocking acquire while the lock is held and unlock is not a scheduling point, so `lock;incr;unlock || try_lock` "
       "never explores the failing try_lock (src/rt/mutex.rs, src/rt/rwlock.rs)",
       ["missing_outcome", "false_deadlock"], "try_lock_contended",
       case("C07", "known", "t0: spawn(1); Lock(m=0); Incr(m=0); Unlock(m=0) || t1: TryLock(m=0); Unlock(m=0)"))
-known("F2", ["C01", "C09"],
+known("F2", SCP,
       "try_recv on an empty channel is not a scheduling point and send/recv are not treated as dependent: `try_recv || send(1)` "
       "only ever returns Empty (src/sync/mpsc.rs try_recv, src/rt/mpsc.rs)",
       ["missing_outcome", "missed_deadlock"], "try_recv_race",
       case("C09", "known", "t0: spawn(1); TryRecv; join(1) || t1: Send(v=1)"))
-known("F2b", ["C01", "C05", "C09", "C10"],
+known("F2b", SCP,
       "dropping the Receiver (emptiness test in Receiver::drop) is not a scheduling point: a send that can take effect after the "
       "receiver was dropped is explored only in the order send-before-drop, so the `Messages leaked` report of the other order is "
       "never produced: main: send(1) || t1: send(2) || t2 owns the receiver and exits",
       ["missed_leak", "missing_outcome"], "label:send_after_rx_drop",
       case("C09", "known", "t0: spawn(1); spawn(2); Send(v=1); join(1); join(2) || t1: Send(v=2) || t2: Yield", rx_owner=2))
 
-known("F5a", ["C01", "C05", "C08"],
+known("F5a", SCP,
       "the park token lives in the thread's run state and `unpark` makes any blocked thread runnable: unparking a thread that is "
       "blocked in join makes it runnable although the joined thread has not finished -> panic `assertion failed: state.notified`; "
       "blocked on a mutex -> `expected to be able to acquire lock` (src/rt/thread.rs Thread::unpark / set_unparked)",
       ["unexpected_panic", "false_deadlock", "missed_deadlock", "impossible_outcome", "invalid_trace"], "unpark_blocked_target",
       case("C05", "known", "t0: spawn(1); join(1) || t1: Lock(m=0); Incr(m=0); Unpark(t=0); Incr(m=0); Unlock(m=0)"))
-known("F5c", ["C01", "C04", "C08"],
+known("F5c", SCP,
       "park/unpark are not scheduling points and the unparker's clock is joined into the target at unpark time: "
       "`unpark(t1); c0.write; unpark(t1) || t1: park; c0.read` is explored in one order only and the data race is never reported",
       ["missed_race"], "unpark_na_unsafe",
       case("C08", "known", "t0: spawn(1); Unpark(t=1); CellWrite(c=0); Unpark(t=1) || t1: Park; CellRead(c=0)"))
-known("F5d", ["C01", "C05", "C08"],
+known("F5d", SCP,
       "park/unpark are not scheduling points: with two unparks racing two parks of the same thread only one relative order is "
       "explored, so the execution in which both unparks precede the first park (one token, second park blocks forever) is missed",
       ["missed_deadlock", "missing_outcome"], "park_unpark_twice",
       case("C05", "known", "t0: spawn(1); spawn(2); join(1); join(2) || t1: Park; Park || t2: Unpark(t=1); Unpark(t=1)"))
-known("F11", ["C04", "C07"],
+known("F11", SCP,
       "two readers of an RwLock are treated as independent by the partial-order reduction although a reader's unlock synchronises "
       "with the next reader's lock: conflicting non-atomic writes made under two read guards are explored in one order only and the "
       "overlapping execution, in which they race, is never reported",
       ["missed_race"], "write_under_read_lock",
       case("C07", "known", "t0: spawn(1); Read(r=0); CellWrite(c=0); UnlockR(r=0) || t1: Read(r=0); CellWrite(c=0); UnlockR(r=0)"))
 
-known("F5e", ["C01", "C05", "C08"],
+known("F5e", SCP,
       "Notify::notify wakes its waiter through the park/unpark state: a second notify that finds the waiter already runnable stores "
       "a park token in it, so a later thread::park returns although nobody called unpark: "
       "`nf.wait; park || nf.notify; nf.notify; nf.notify` completes instead of deadlocking (src/rt/notify.rs notify -> Thread::unpark)",
       ["impossible_outcome", "missed_deadlock", "invalid_trace"], "notify_then_park",
       case("C08", "known", "t0: spawn(1); NfWait(n=0); Park; join(1) || t1: NfNotify(n=0); NfNotify(n=0); NfNotify(n=0)"))
+
+known("F12", ["C02", "C18"],
+      "SeqCst fences are ordered by loom's single execution order (a global clock joined both ways): an RC11-consistent outcome whose "
+      "SeqCst-fence order runs against po U rf is never explored, e.g. x2.store(1,sc);fence(sc);x0.store(1,rlx) || x0.load(rlx)=1;"
+      "x1.store(1,rlx) || x1.load(rlx)=1;fence(sc);x2.load(sc)=0 (src/rt/thread.rs seq_cst_fence)",
+      ["missing_outcome_fence_order"], "label:sc_fence_order",
+      case("C02", "known", JOIN3 + "ld(x0,rlx); ld(x1,rlx); ld(x2,rlx) || t1: st(x2,1,sc); fence(sc); st(x0,1,rlx) || "
+           "t2: ld(x0,rlx); st(x1,1,rlx) || t3: ld(x1,rlx); fence(sc); ld(x2,sc)"))
 
 if __name__ == "__main__":
     out = os.path.join(os.path.dirname(os.path.abspath(__file__)), "..", "known_findings.json")
